@@ -590,6 +590,45 @@ func (e *LinEnv) FactsAt(b *ssa.BasicBlock) []Fact {
 	return out
 }
 
+// FactAlternatives: the facts at b as a disjunction. When b (or the nearest block above it on its single-predecessor
+// chain) is a join of several forward edges - the shape a guard written with || or a switch leaves behind - each incoming
+// edge contributes its own facts; something that follows from every alternative holds at b.
+func (e *LinEnv) FactAlternatives(b *ssa.BasicBlock, depth int) [][]Fact {
+	base := e.FactsAt(b)
+	d := b
+	for hops := 0; hops < 6; hops++ {
+		var fw []*ssa.BasicBlock
+		for _, p := range d.Preds {
+			if !d.Dominates(p) {
+				fw = append(fw, p)
+			}
+		}
+		if len(fw) == 1 {
+			d = fw[0]
+			continue
+		}
+		if len(fw) < 2 || depth >= 3 {
+			break
+		}
+		var out [][]Fact
+		for _, p := range fw {
+			var edge []Fact
+			if iff, ok := p.Instrs[len(p.Instrs)-1].(*ssa.If); ok && p.Succs[0] != p.Succs[1] {
+				edge = e.condFacts(iff.Cond, p.Succs[0] == d)
+			}
+			for _, alt := range e.FactAlternatives(p, depth+1) {
+				f := append(append(append([]Fact{}, base...), alt...), edge...)
+				out = append(out, f)
+			}
+		}
+		if len(out) == 0 || len(out) > 16 {
+			break
+		}
+		return out
+	}
+	return [][]Fact{base}
+}
+
 // ProveNonNeg tries to show E >= 0 from the facts: E = sum of non-negative multiples of facts and non-negative terms.
 func ProveNonNeg(E *Lin, facts []Fact) bool {
 	if E.triviallyNonNeg() {
